@@ -85,6 +85,10 @@ def coq_prepare():
     proj = "-Q . Slock\n-arg -w -arg -notation-overridden,-deprecated-hint-without-locality,-deprecated-instance-without-locality,-ambiguous-paths\n" + "\n".join(srcs) + "\n"
     changed = write_if_changed(os.path.join(COQ, "_CoqProject"), proj)
     if changed or not os.path.exists(os.path.join(COQ, "Makefile")):
+        try:
+            os.remove(os.path.join(COQ, ".Makefile.d"))     # the dependency cache may name a file that no longer exists
+        except FileNotFoundError:
+            pass
         sh("coq_makefile -f _CoqProject -o Makefile", cwd=COQ, check=True)
 
 
